@@ -127,20 +127,24 @@ def grid(tier, seed):
             out.append(dict(st, cmd="pubkeys", pin="valid", any_pin=False, no_unlock=nou))
             out.append(dict(st, cmd="pubkeys", pin="valid", any_pin=False, no_unlock=nou,
                             wallet="zero-x"))
+    # one character outside the policy, every such ASCII byte, on a device that would
+    # otherwise be onboarded / have its PIN changed
+    front = []
+    for plat, pin in itertools.product(PLATS, BYTE_PINS):
+        front.append(dict(plat=plat, mode=BOOT, onb=False, echo=True, cmd="onboard", pin=pin,
+                          any_pin=False, answer="yes"))
+        front.append(dict(plat=plat, mode=BOOT, onb=True, echo=True, cmd="changepin",
+                          pin="valid", new_pin=pin, any_pin=False, no_unlock=False))
     # the same through the programs an operator starts (what can be written on a command line)
-    for c in list(out):
+    prog = []
+    for c in front + out:
         if c["echo"] and c["onb"] != "error" and c["mode"] in (BOOT, SIGNER) and \
                 "\x00" not in (PINS.get(c.get("pin")) or "") and \
                 "\x00" not in (PINS.get(c.get("new_pin", "valid")) or ""):
-            out.append(dict(c, via="program"))
-    # one character outside the policy, every such ASCII byte, on a device that would
-    # otherwise be onboarded / have its PIN changed
-    for plat, pin in itertools.product(PLATS, BYTE_PINS):
-        out.append(dict(plat=plat, mode=BOOT, onb=False, echo=True, cmd="onboard", pin=pin,
-                        any_pin=False, answer="yes"))
-        out.append(dict(plat=plat, mode=BOOT, onb=True, echo=True, cmd="changepin",
-                        pin="valid", new_pin=pin, any_pin=False, no_unlock=False))
-    return out
+            prog.append(dict(c, via="program"))
+    # (the small special families first: should the stage's time allowance ever run out on
+    #  an overloaded machine, it is the bulk of the grid that is cut short)
+    return front + prog + out
 
 
 _TMP = {}
@@ -489,4 +493,4 @@ REQUIRED_LABELS = {t: ["onboard:done", "onboard:refused", "unlock:done", "unlock
 
 def stages(tier):
     return [EnumStage("grid", grid, run_case, exhaustive={"quick": True, "thorough": True},
-                      budget_s={"quick": 150, "thorough": 600})]
+                      budget_s={"quick": 450, "thorough": 600})]
